@@ -23,6 +23,8 @@ pub enum Outcome {
     DirectSuccess,
     /// command with a slash, missing
     DirectFail,
+    /// command with slashes of the given total length (cannot exist beyond PATH_MAX / NAME_MAX)
+    DirectLong(u16),
 }
 
 #[derive(Clone, Debug, Serialize, Deserialize)]
@@ -50,7 +52,7 @@ pub fn check_case(ctx: &Ctx, case: &AllocCase, rep: &mut CaseReport) -> CaseResu
     // a real file name is at most 255 bytes; longer names can only fail (ENAMETOOLONG)
     let name = "c".repeat(case.name_len.max(1) as usize);
     let runnable_name = case.name_len <= 255;
-    let direct = matches!(case.outcome, Outcome::DirectSuccess | Outcome::DirectFail);
+    let direct = matches!(case.outcome, Outcome::DirectSuccess | Outcome::DirectFail | Outcome::DirectLong(_));
     if runnable_name {
         link_vchild(&bindir, OsStr::new(&name));
         set_mode(&bindir, "report", &[&prefix.to_string_lossy(), "0", ""]);
@@ -109,6 +111,14 @@ pub fn check_case(ctx: &Ctx, case: &AllocCase, rep: &mut CaseReport) -> CaseResu
     let command: OsString = if direct {
         if case.outcome == Outcome::DirectSuccess {
             bindir.join(&name).into_os_string()
+        } else if let Outcome::DirectLong(l) = case.outcome {
+            let mut s = String::from("/nonexistent-dir");
+            while s.len() < l as usize {
+                s.push('/');
+                let room = (l as usize - s.len()).min(100);
+                s.push_str(&"q".repeat(room));
+            }
+            OsString::from(s)
         } else {
             sc.path("missing-program").into_os_string()
         }
@@ -163,10 +173,10 @@ pub fn check_case(ctx: &Ctx, case: &AllocCase, rep: &mut CaseReport) -> CaseResu
     rep.count("child_deallocs_observed", deallocs as u64);
     // classification
     let big_path = case.path_lens.iter().filter(|l| **l > 0).count() >= 2;
-    let big_len = case.name_len >= 384 || case.cwd_len >= 384 || case.path_lens.iter().any(|l| *l >= 384) || case.arg_len >= 384;
+    let big_len = matches!(case.outcome, Outcome::DirectLong(_)) || case.name_len >= 384 || case.cwd_len >= 384 || case.path_lens.iter().any(|l| *l >= 384) || case.arg_len >= 384;
     if big_path || !ok || big_len {
         let dim = if case.cwd_len >= 384 { "cwd" } else if case.path_lens.iter().any(|l| *l >= 384) { "path" } else if case.name_len >= 384 { "name" } else if case.nargs > 100 || case.nenv.unwrap_or(0) > 100 { "argv/env" } else { "none" };
-        rep.nontrivial(format!("large:{}|cands{}|outcome:{}|ok{}|faulthit{}", dim, if big_path { ">=2" } else { "<2" }, match case.outcome { Outcome::SuccessAt(_) => "success", Outcome::FailEverywhere => "fail-all", Outcome::ChildFault(k, _) => ["f-chdir", "f-dup2", "f-setuid", "f-setgid", "f-setpgid", "f-exec"][k as usize % 6], Outcome::DirectSuccess => "direct-ok", Outcome::DirectFail => "direct-fail" }, ok as u8, fault_hit as u8));
+        rep.nontrivial(format!("large:{}|cands{}|outcome:{}|ok{}|faulthit{}", dim, if big_path { ">=2" } else { "<2" }, match case.outcome { Outcome::SuccessAt(_) => "success", Outcome::FailEverywhere => "fail-all", Outcome::ChildFault(k, _) => ["f-chdir", "f-dup2", "f-setuid", "f-setgid", "f-setpgid", "f-exec"][k as usize % 6], Outcome::DirectSuccess => "direct-ok", Outcome::DirectFail => "direct-fail", Outcome::DirectLong(l) => if l >= 4096 { "direct-long>=PATH_MAX" } else { "direct-long" } }, ok as u8, fault_hit as u8));
     }
     let _ = (exec_failed, will_succeed);
     if allocs > 0 {
@@ -185,6 +195,7 @@ pub fn case_strategy() -> impl Strategy<Value = AllocCase> {
         3 => (0u8..6, prop::sample::select(vec![libc::EPERM, libc::EACCES, libc::ENOENT, libc::EIO, libc::ENOMEM, libc::EINVAL])).prop_map(|(k, e)| Outcome::ChildFault(k, e)),
         1 => Just(Outcome::DirectSuccess),
         1 => Just(Outcome::DirectFail),
+        2 => prop_oneof![Just(4095u16), Just(4096u16), Just(4097u16), 300u16..8000].prop_map(Outcome::DirectLong),
     ];
     (
         prop_oneof![6 => 1u16..40, 2 => 40u16..256, 1 => 256u16..4000],
@@ -212,7 +223,7 @@ pub fn case_strategy() -> impl Strategy<Value = AllocCase> {
 
 fn worker(ctx: &Ctx) {
     quiet_panics();
-    let n = ctx.tier.pick(150, 6000);
+    let n = ctx.tier.pick(400, 6000);
     ctx.explore("real+probe", "c17", case_strategy(), n, 300, |c, rep| check_case(ctx, c, rep));
 }
 
@@ -226,7 +237,7 @@ fn replay(ctx: &Ctx, _engine: &str, case: &Value) -> CaseResult {
 pub static C17: PropDef = PropDef {
     id: "C17",
     level: "exploration",
-    rule: "proptest generates command-name lengths 1..4000, PATH values of 0..60 entries of length 0..4000 (rotated so the longest entry is first / in the middle / last, empty entries included), 0..300 arguments of length up to 4000, env = inherit or 0..300 entries, cwd none / short / 384..4000 bytes (nested real directories), all stream kinds, setuid/setgid/setpgid, and an outcome in {exec succeeds at the j-th PATH candidate, fails everywhere, an injected errno at a child-side step (chdir, dup2, setuid, setgid, setpgid, last exec), direct path runnable / missing}. Oracle: the harness's counting global allocator, armed in the forked child by the interposed fork(), reports into a shared page: the number of alloc/alloc_zeroed/realloc calls between fork and exec/_exit must be 0 (deallocations are counted and reported, not judged). Non-trivial = PATH search with >= 2 candidates, or a failing launch, or some length >= 384.",
+    rule: "proptest generates command-name lengths 1..4000, PATH values of 0..60 entries of length 0..4000 (rotated so the longest entry is first / in the middle / last, empty entries included), 0..300 arguments of length up to 4000, env = inherit or 0..300 entries, cwd none / short / 384..4000 bytes (nested real directories), all stream kinds, setuid/setgid/setpgid, and an outcome in {exec succeeds at the j-th PATH candidate, fails everywhere, an injected errno at a child-side step (chdir, dup2, setuid, setgid, setpgid, last exec), direct path runnable / missing / 300..8000 bytes long}. Oracle: the harness's counting global allocator, armed in the forked child by the interposed fork(), reports into a shared page: the number of alloc/alloc_zeroed/realloc calls between fork and exec/_exit must be 0 (deallocations are counted and reported, not judged). Non-trivial = PATH search with >= 2 candidates, or a failing launch, or some length >= 384.",
     assumptions: &["the probe sees allocations made through Rust's global allocator (the crate and std); libc-internal malloc calls are not observed", "the interposition layer itself never allocates"],
     engines: "real",
     workers: |_| 16,
